@@ -293,12 +293,23 @@ def wrap_card(card, width, how):
     return '\n     '.join(lines)
 
 
-def b_slabs(ch):
+class DefaultAnswers:
+    """answers every choice point with its default without recording it"""
+
+    def choose(self, label, options, free=False):
+        return list(options)[0]
+
+    def reject(self, why=''):
+        from ..explore import Inadmissible
+        raise Inadmissible(why)
+
+
+def b_slabs(ch, n_override=None):
     """Decks beyond the small scope of the other scenarios: N slabs along x (up to 130 cells and planes), numbers
     that cross a digit boundary, a long union, a long list of #n, cards continued over many lines, an IMP data
     card with a long repeat.  The reference is the slab index of the point."""
     st = St('c01 slabs')
-    n = ch.choose('slabs', [12, 40, 100, 130], free=True)
+    n = ch.choose('slabs', [12, 40, 100, 130], free=True) if n_override is None else n_override
     numbering = ch.choose('numbering', ['1..N', 'across-100', 'across-100000', 'descending', 'shuffled'], free=True)
     style = ch.choose('style', ['plain', 'every-3rd-by-complement', 'long-union', 'pairs-in-parentheses'], free=True)
     wrap = ch.choose('wrap', ['none', 'wrap5-70', 'amp-40', 'wrap5-30'], free=True)
